@@ -1,0 +1,108 @@
+//! Verification hooks for the pruner. Adds no behaviour.
+
+use std::sync::Arc;
+use std::time::Duration;
+
+use blockstore::Blockstore;
+use tendermint::Time;
+
+use super::{Cache, Pruner, PrunerArgs, find_height_after_window};
+use crate::daser::verif_daser::DaserHandle;
+use crate::store::{BlockRanges, Store};
+use crate::verif::Events;
+
+/// A running `Pruner`.
+pub struct PrunerHandle(Pruner);
+
+/// Starts the real pruner worker.
+pub fn start_pruner<S, B>(
+    daser: &DaserHandle,
+    store: Arc<S>,
+    blockstore: Arc<B>,
+    events: &Events,
+    block_time: Duration,
+    pruning_window: Duration,
+    sampling_window: Duration,
+) -> PrunerHandle
+where
+    S: Store + 'static,
+    B: Blockstore + 'static,
+{
+    PrunerHandle(Pruner::start(PrunerArgs {
+        daser: daser.0.clone(),
+        store,
+        blockstore,
+        event_pub: events.publisher(),
+        block_time,
+        pruning_window,
+        sampling_window,
+    }))
+}
+
+#[allow(missing_docs)]
+impl PrunerHandle {
+    pub fn stop(&self) {
+        self.0.stop()
+    }
+
+    pub async fn join(&self) {
+        self.0.join().await
+    }
+}
+
+/// The pruner's window-edge search with its own cache and previous answer.
+#[derive(Default)]
+pub struct WindowSearch {
+    cache: Cache,
+    prev: Option<u64>,
+}
+
+#[allow(missing_docs)]
+impl WindowSearch {
+    pub fn new() -> Self {
+        Self::default()
+    }
+
+    /// Forget the previous answer (and the cached block infos).
+    pub fn reset(&mut self) {
+        self.cache = Cache::default();
+        self.prev = None;
+    }
+
+    pub fn prev(&self) -> Option<u64> {
+        self.prev
+    }
+
+    /// One search, given this object's previous answer; the answer is remembered the way the
+    /// pruner remembers it (only if it moved forward) and the cache is garbage-collected.
+    pub async fn find<S: Store>(
+        &mut self,
+        store: &S,
+        stored: &BlockRanges,
+        cutoff: &Time,
+    ) -> Result<Option<u64>, String> {
+        let res = find_height_after_window(store, stored, cutoff, self.prev, &mut self.cache)
+            .await
+            .map_err(|e| e.to_string())?;
+
+        if self.prev < res {
+            self.prev = res;
+        }
+
+        // Same cache maintenance as `Worker::update_cached_data`.
+        self.cache.after_pruning_window = self.prev;
+        self.cache.keep_block_info.clear();
+
+        if let Some(stored_tail) = stored.tail() {
+            self.cache.keep_block_info.insert(stored_tail);
+        }
+
+        if let Some(window_tail) = self.prev.and_then(|height| stored.right_of(height)) {
+            self.cache.keep_block_info.insert(window_tail);
+        }
+
+        self.cache.garbage_collect();
+
+        Ok(res)
+    }
+}
